@@ -80,6 +80,21 @@ CHECKS = {
             "The C06 engine with version changes: inputs re-created under higher versions (always with new contents), the vector's own version raised by a forced re-import, arbitrary starting indices, interleaved with appends, truncate+regrow, flush + re-import. After a version change the result must equal the from-scratch result over the new inputs and - for compute_to/range/transform/transform2/3/4, whose closures log every index and stamp the version into each element - the closure must have run for exactly 0..len. Under an unchanged version no index below min(starting index, stored length) may reach the closure and no stored element below it may change; header().computed_version() must survive flush + re-import.",
             "'Not re-evaluated' is decided for the closure-taking families only; for the others staleness is recognised by value.",
             "DESIGN.md §4 C19"),
+    "C15": ("E-LAZY", "exploration",
+            "formula oracle over the full read-API grid, exhaustive over small window-start / first-index mappings",
+            "LazyVecFrom1/2/3 (and a nested From1), LazyDeltaVec<Sub|Avg|Change|Rate> and LazyAggVec<Sparse> are built over stored sources (Bytes/ZeroCopy/Pco/LZ4/Zstd, through boxed read-only clones); every read API - collect*, every (from,to) incl. reversed/out of range/usize::MAX, read_into (append), fold/try_fold with early exit, for_each*, collect_one for every index up to len+2 and usize::MAX, sorted reads with duplicates and out-of-range tails, cursor next/advance/fold/get - is compared with the defining formula evaluated on the harness's own copy of the sources, before and after the sources grow. All monotone window-start vectors with starts[h] <= h+1 and all monotone first-index mappings (values 0..=len) are enumerated for n <= 5 (thorough: 6) with all ranges and all sorted index lists of length <= 3; random scenarios cover one/two-page and multi-thousand lengths, unequal source lengths and mappings shorter/longer than the source.",
+            "Mapping values beyond the source length are outside the defined domain and not judged; float operators are compared with the same IEEE expression.",
+            "DESIGN.md §4 C15"),
+    "C17": ("E-CODEC", "exploration",
+            "structured round-trip generation at the limits + mutation fuzzing of valid encodings in child processes with a counting allocator",
+            "For RegionMetadata slots, crafted regions files (opened with the real Database::open), vector headers, page-index entries, Stamp/Version/Format, every numeric Bytes impl, 16 byte-array widths, derive(Bytes) and base/raw change records for five element types: valid encodings of values at and around the limits (0, page+-1, 2^32+-1, 2^40, 2^63, u64::MAX-k; id lengths 0/1/1024/1025; non-UTF-8) must decode to exactly the encoded fields; truncations (change records: at every byte length), bit flips, every length field overwritten with limit values, and extensions must yield an error or a value that satisfies the type's rules. The loop runs in 16 child processes; a panic, a child that dies (allocation failure aborts cannot be caught), or a per-call peak allocation above 4 x input + 64 KiB (thread-local counting global allocator) is a violation; in crafted regions files exactly the valid slots must be present after open.",
+            "Native release build; overflow-on-arithmetic is only visible where it changes a result or panics (the dev-profile / Miri runs listed in DESIGN are separate).",
+            "DESIGN.md §4 C17"),
+    "C18": ("E-PROC", "exploration",
+            "holder-set model over totally ordered command histories across processes + byte-compare of the files around refused opens",
+            "The harness re-executes itself as 1-3 command-server child processes; the parent (itself a participant) issues OPEN (min_len 0 / below / above the current size), CLONE, region-derived database reference, READER, background task, WRITE+FLUSH and DROP commands in random order. While any holder of any participant is alive every other open (same process or not) must fail with a lock error and leave `data` and `regions` byte-identical (size and content hash before/after); once the last holder is gone the next open must succeed and see exactly the digest the previous holder flushed. Rounds of 2-8 threads racing to open with an occupancy counter prove that two never hold at once.",
+            "Advisory flock semantics of the local file system; a participant never writes while it holds a reader (documented misuse).",
+            "DESIGN.md §4 C18"),
 }
 
 NOT_YET = {}
@@ -121,6 +136,9 @@ def main():
             {"name": "E-EAGER", "path": "harness/src/c_eager.rs", "serves_properties": ["C06", "C19"], "kind_free_text": "differential monitor for EagerVec computations: incremental vs from-scratch, batch-limit replay, version-change oracle"},
             {"name": "E-TABLE", "path": "harness/src/c_import.rs", "serves_properties": ["C14"], "kind_free_text": "exhaustive decision-table executor for import / forced_import"},
             {"name": "E-FAULT", "path": "harness/src/c_fault.rs", "serves_properties": ["C16"], "kind_free_text": "single-file fault injector for change records (delete / truncate at every offset / length-field overwrite)"},
+            {"name": "E-LAZY", "path": "harness/src/c_lazy.rs", "serves_properties": ["C15"], "kind_free_text": "formula oracle + read-API grid for lazy vectors, exhaustive small mappings"},
+            {"name": "E-CODEC", "path": "harness/src/c_codec.rs", "serves_properties": ["C07", "C17"], "kind_free_text": "independent page-index parser; codec fuzzer in child shards with a counting allocator"},
+            {"name": "E-PROC", "path": "harness/src/c_proc.rs", "serves_properties": ["C18"], "kind_free_text": "multi-process command-server driver with a holder-set model"},
             {"name": "E-CRASH", "path": "harness/src/crash.rs, harness/src/c_crash.rs", "serves_properties": ["C05", "C12"], "kind_free_text": "durable-image shadow of both files from hook events; crash images recovered by the real open"},
             {"name": "E-LAYOUT", "path": "harness/src/rawmodel.rs (check_layout)", "serves_properties": ["C02", "C10", "C13"], "kind_free_text": "extent/partition invariant walker at quiescent points"},
         ],
